@@ -53,7 +53,11 @@ func operands(pattern string, a, b mapset.Set) (recv, arg mapset.Set) {
 }
 
 // call method `name` on recv with arg, draining a returned channel
-func callOp(name string, recv, arg mapset.Set, val int) {
+func callOp(name string, recv, arg mapset.Set, val int) { callOpM(name, recv, arg, val, false) }
+
+// with useResult, a set handed back by the operation is written to and read straight away: a result
+// that shares storage with an operand then touches that operand's contents under the wrong lock
+func callOpM(name string, recv, arg mapset.Set, val int, useResult bool) {
 	m := reflect.ValueOf(recv).MethodByName(name)
 	if !m.IsValid() {
 		return
@@ -77,6 +81,13 @@ func callOp(name string, recv, arg mapset.Set, val int) {
 				if _, ok := r.Recv(); !ok {
 					break
 				}
+			}
+		}
+		if useResult && r.Kind() == reflect.Interface && !r.IsNil() {
+			if res, ok := r.Interface().(mapset.Set); ok && res != recv && res != arg {
+				res.Add(7000 + val)
+				res.Remove(val)
+				res.Contains(val + 1)
 			}
 		}
 	}
@@ -381,8 +392,15 @@ func racePair(n1, n2, pat string) {
 			}
 		}()
 	}
-	run(func(i int) { r, g := operands(pat, a, b); callOp(n1, r, g, i) })
-	run(func(i int) { r, g := operands(pat, b, a); callOp(n2, r, g, i+50) })
+	run(func(i int) { r, g := operands(pat, a, b); callOpM(n1, r, g, i, true) })
+	run(func(i int) {
+		// swapped operands; with aliased operands the second goroutine works on the SAME set
+		r, g := operands(pat, b, a)
+		if pat == "AA" {
+			r, g = operands(pat, a, b)
+		}
+		callOpM(n2, r, g, i+50, true)
+	})
 	done := make(chan struct{})
 	go func() { wg.Wait(); close(done) }()
 	select {
@@ -410,7 +428,7 @@ func raceFocus(op, pat string) string {
 			}
 		}()
 	}
-	spin(func(i int) { r, g := operands(pat, a, b); callOp(op, r, g, i) })
+	spin(func(i int) { r, g := operands(pat, a, b); callOpM(op, r, g, i, true) })
 	spin(func(i int) { a.Add(10 + i); a.Remove(10 + i) })
 	spin(func(i int) { b.Add(20 + i); b.Remove(20 + i) })
 	time.Sleep(1500 * time.Millisecond)
